@@ -16,3 +16,5 @@ mod literal;
 mod matcher;
 mod non_matching;
 mod strip;
+#[cfg(ripgrep_verif)]
+pub mod verif;
